@@ -14,6 +14,7 @@ L3 = ('stateless DFS, delay-bounded (every schedule departing at most N times fr
 L3NOTE = ('Trusted: virtual OS models (semaphore, pipe, process table, signal delivery at bytecode boundaries / blocking calls), CPython. Bounds: 1-2 workers, 0-3 jobs, delay bound 1 quick / 2 thorough; timers fire only when nothing else can run.')
 CHECKS = {
  'C01': ('model_checking', L2, 'Every history (submissions, task-handler steps incl. serialisation failures, worker take/finish, deaths, deliveries in any order, supervision rounds, clock advances, discard, terminate_job, close) up to the depth bound is executed on the real parent code; per-event oracle: outcome immutable, callbacks at most once, each outcome justified by this job\'s own ground truth; after a deterministic settle suffix every accepted job is resolved.', L2NOTE, '5/C01'),
+ 'C02': ('model_checking', L2, 'Real chunking/ordering code under every order in which chunks are taken, acknowledged, completed and delivered by 1-3 workers, every position of the length announcement and of the consumer next() calls: map/starmap equal the sequential list (values and element types), imap in order, imap_unordered as a multiset, empty inputs empty and ready at once; failures carry the original exception (type, args, remote traceback naming the function), a failed map reports one of its own inputs, imap raises at the failing position and continues.', L2NOTE + ' Inputs: lengths 0-3 (thorough 0-5), chunk sizes None/1/2 (thorough also 3, n, n+1), pool sizes 1-3, raising position first/last (thorough: every).', '5/C02'),
  'C03': ('fault_enumeration', 'complete enumeration of task sequences x quotas x handshake answers x end-of-input on the real Worker (as a vthread in a virtual process), with one fault (SIGKILL; thorough also SIGTERM) injected at every scheduling point of the fault-free run; plus all orders of cancel/ACK/READY on the real parent handlers', 'The real Worker.__call__/workloop/_do_exit run against WorkerSpec (ACK first with real pid and time, exactly one READY per accepted job before the next, refused jobs never run nor count, quota, recycle exit only after consumption or 30 s guard, exit callback and DEATH once).', 'Trusted: virtual OS, signal-delivery model. Bounds: sequences of 1-2 tasks (3 thorough) over 6 task behaviours, quotas None/1/2(/3), handshake answers ack/nack, injection at every virtual-OS call (thorough: also every source line of Worker).', '4/L1, 5/C03'),
  'C04': ('model_checking', L2, 'Death alphabet (statuses -9,-15,-11,1,70,255,0,0x9B; in task and between jobs), ticks and clock advances around the lost-worker timeout, apply/map/imap/imap_unordered: WorkerLostError exactly for jobs with an unfinished part on a dead worker, naming the status, not before the timeout and at the first supervision round after it; replacement present; iterator handles release their waiter.', L2NOTE + ' Fairness assumption: a result message is processed less than one lost-worker timeout after it was written.', '5/C04'),
  'C05': ('model_checking', L2, 'Pool-level and per-job hard limits, elapsed time at limit-eps/limit/limit+eps, result arriving before/between/after scan and kill, map/imap sharing the pool: job unresolved at a scan at or after its limit fails with TimeLimitExceeded, TERM then KILL recorded, process gone, pool whole again after settle; nothing else is ever timed out; per-job beats pool default; scan never raises.', L2NOTE, '5/C05'),
